@@ -262,7 +262,9 @@ def check_prop(case):
         # relabelling); velocity by central difference over +-5 d (Sun) / +-1 d (Moon)
         vbody, half = (3.0e4, 5 * 86400.0) if kind == "sun" else (1.1e3, 86400.0)
         dts = 0.0
-        extra = vbody * (2e-6 + JD_QUANTUM) if inexact(X) else vbody * 1e-9
+        # (the UT1 / TDB reading reached from two labels may differ by 1 us - one rounding per path - and
+        # flip the last bit of the Julian date, exactly as for the sidereal angle in the frames facet)
+        extra = vbody * (1.5 * JD_QUANTUM + (2e-6 if inexact(X) else 0.0))
         # date +- step is reading arithmetic in the argument's own scale (C03: uniform only for TAI/TT/GPS/
         # UTC): in UT1 the two ends move by the change of UT1-UTC over the step (<= 4 ms/day), in TDB by
         # the periodic term (<= 29 us/day)
@@ -573,21 +575,133 @@ def check_ccsds(case):
                 ratio=worst / tol if tol else 0.0)
 
 
+# ------------------------------------------------------------------ events
+
+
+@st.composite
+def events_case(draw, shard, tier):
+    leaps = t3.leap_days()
+    us = draw(gd.instants(leaps, lo_mjd=gd.LO_MJD + 3, hi_mjd=gd.HI_MJD - 3))
+    if not gd.leap_free(us - US, us + US_DAY, leaps):
+        us += 2 * US_DAY
+    X, Y = draw(label_pair())
+    X2 = iers.SCALES[draw(st.integers(0, 5))]
+    el = draw(go.elements(hyperbolic=False, emax_ell=0.5, rp_range=(1.05, 2.5)))
+    step = draw(st.sampled_from([60, 180, 300])) * US
+    revs = draw(go.uniform(0.6, 1.6))
+    return dict(us=us, X=X, Y=Y, X2=X2, el=el, step=step, revs=revs,
+                listeners=draw(st.sampled_from([["node"], ["apside"], ["node", "apside"]])))
+
+
+def run_events(case, X, Y, X2):
+    from beyond.dates import timedelta
+    from beyond.propagators.kepler import Kepler
+    from beyond.propagators.listeners import ApsideListener, NodeListener
+
+    us, step = case["us"], case["step"]
+    period = 2 * math.pi * math.sqrt(case["el"]["a"] ** 3 / MU_E)
+    n = int(case["revs"] * period * US / step) + 1
+    orb = cart_orbit(case["el"], date_of(us, Y), Kepler())
+    listeners = [{"node": NodeListener, "apside": ApsideListener}[k]() for k in case["listeners"]]
+    start = date_of(us + 60 * US, X)
+    stop = date_of(us + 60 * US + n * step + step // 2, X2)
+    out = []
+    for o in orb.iter(start=start, stop=stop, step=timedelta(microseconds=step), listeners=listeners):
+        if o.event is not None:
+            out.append((str(o.event.info), o.date, np.asarray(o.copy(form="cartesian").base, float)))
+    return out
+
+
+def check_events(case):
+    us = case["us"]
+    X, Y, X2 = lab(us, case["X"]), lab(us, case["Y"]), lab(us, case["X2"])
+    if inexact(X):
+        X = "TAI"  # the grid start + k * step is reading arithmetic: uniform scales only (C03)
+    ref = run_events(case, "UTC", "UTC", "UTC")
+    got = run_events(case, X, Y, X2)
+    what = f"events {case['listeners']} of a Kepler orbit, epoch {date_of(us, Y)}, iter from {date_of(us + 60 * US, X)}"
+    if [e[0] for e in got] != [e[0] for e in ref]:
+        raise Violation("events-differ", f"{what}: events {[e[0] for e in got]}, the all-UTC run gives {[e[0] for e in ref]}")
+    worst = 0
+    # the bisection stops when the bracket is below 1 us: either end of the last bracket may be returned
+    tol = 3 + (2 if inexact(X, Y, X2) else 0)
+    for (name, gd_, gs), (_, rd, rs) in zip(got, ref):
+        off = abs(t3.td_us(gd_ - rd))
+        worst = max(worst, off)
+        if off > tol:
+            raise Violation("event-date-label-dependent", f"{what}: {name} at {gd_}, the all-UTC run finds it at {rd} ({off} us apart)")
+        compare_states(f"{what}: state at {name}", gs, rs, tol * 1e-6, kind="event-state-label-dependent")
+    return dict(nt=True, cls=[f"eop:{t3.cfg()}", f"X:{X}", f"Y:{Y}", f"events:{len(ref)}"], ratio=worst / tol)
+
+
+# ------------------------------------------------------------------ utils (LTAN, beta)
+
+
+@st.composite
+def utils_case(draw, shard, tier):
+    us = draw(gd.instants(t3.leap_days(), lo_mjd=gd.LO_MJD + 10, hi_mjd=gd.HI_MJD - 10))
+    X = iers.SCALES[draw(st.integers(1, 5))]
+    op = draw(st.sampled_from(["raan2ltan", "ltan2raan", "beta", "beta-moon"]))
+    return dict(us=us, X=X, op=op, type=draw(st.sampled_from(["mean", "true"])), raan=draw(go.uniform(0, 6.283)),
+                ltan=draw(go.uniform(0, 86400)), el=draw(go.elements(hyperbolic=False, emax_ell=0.5, rp_range=(1.05, 4.0))))
+
+
+def check_utils(case):
+    from beyond.utils import ltan
+    from beyond.utils.beta import beta
+
+    us, op = case["us"], case["op"]
+    tus = us
+    if op.startswith("beta") or case["type"] == "true":
+        tus = target_us(dict(us=us, dt=0, kind="sun"))
+    X = lab(tus, case["X"])
+    out = {}
+    for L in ("UTC", X):
+        d = date_of(tus, L)
+        if op == "raan2ltan":
+            out[L] = float(ltan.raan2ltan(d, case["raan"], case["type"]))
+        elif op == "ltan2raan":
+            out[L] = float(ltan.ltan2raan(d, case["ltan"], case["type"]))
+        else:
+            out[L] = float(beta(cart_orbit(case["el"], d, None), "Sun" if op == "beta" else "Moon"))
+    if not all(math.isfinite(v) for v in out.values()):
+        raise Violation("non-finite", f"{op}: {out}")
+    diff = out[X] - out["UTC"]
+    if op == "raan2ltan":
+        diff = (diff + 43200) % 86400 - 43200
+        tol = 2e-4  # s: sidereal angle quantum (40 us of a double Julian date) + 2 us
+    elif op == "ltan2raan":
+        diff = tb.angdiff(out[X], out["UTC"])
+        tol = 1.5e-8  # rad: the same quantum
+    else:
+        tol = 1e-9 if op == "beta" else 1e-8
+    if abs(diff) > tol:
+        raise Violation(f"{op.split('-')[0]}-label-dependent",
+                        f"{op}({date_of(tus, X)}{', ' + case['type'] if 'ltan' in op else ''}) = {out[X]!r}, "
+                        f"{out['UTC']!r} with the same instant labelled UTC (diff {diff:.3g}, tol {tol:.3g})")
+    return dict(nt=True, cls=[f"eop:{t3.cfg()}", f"X:{X}", f"op:{op}"] + ([case["type"]] if "ltan" in op else []),
+                ratio=abs(diff) / tol)
+
+
 # ------------------------------------------------------------------ facets
 
 FACETS = [
     Facet("sgp4", lambda s, t: prop_case(s, t, "sgp4"), check_prop, setup=setup,
-          rule="every case ((X, Y) != (UTC, UTC) by construction)", quick=(4, 150), thorough=(16, 1500)),
+          rule="every case ((X, Y) != (UTC, UTC) by construction)", quick=(4, 150), thorough=(16, 900)),
     Facet("sgp4beta", lambda s, t: prop_case(s, t, "sgp4beta"), check_prop, setup=setup,
           rule="every case ((X, Y) != (UTC, UTC) by construction)", quick=(4, 100), thorough=(8, 1000)),
     Facet("propagators", prop_case, check_prop, setup=setup,
-          rule="every case ((X, Y) != (UTC, UTC) by construction)", quick=(8, 120), thorough=(32, 1000)),
+          rule="every case ((X, Y) != (UTC, UTC) by construction)", quick=(8, 120), thorough=(32, 600)),
     Facet("frames", frame_case, check_frames, setup=setup,
-          rule="source frame differs from target frame", quick=(8, 300), thorough=(32, 2500)),
+          rule="source frame differs from target frame", quick=(8, 300), thorough=(32, 1500)),
     Facet("interp", interp_case, check_interp, setup=setup,
-          rule="some label is not UTC", quick=(8, 150), thorough=(16, 2000)),
+          rule="some label is not UTC", quick=(8, 150), thorough=(16, 1200)),
     Facet("tle_writer", tle_case, check_tle, setup=setup,
-          rule="every case (epoch label is never UTC)", quick=(4, 300), thorough=(8, 3000)),
+          rule="every case (epoch label is never UTC)", quick=(4, 300), thorough=(8, 2000)),
+    Facet("events", events_case, check_events, setup=setup,
+          rule="every case ((X, Y) != (UTC, UTC) by construction)", quick=(6, 40), thorough=(16, 100), shrink_quick=False),
+    Facet("utils", utils_case, check_utils, setup=setup,
+          rule="every case (label is never UTC)", quick=(4, 250), thorough=(8, 1500)),
     Facet("ccsds", ccsds_case, check_ccsds, setup=setup_ccsds,
-          rule="every case (some date is not labelled UTC, or labels are mixed)", quick=(4, 250), thorough=(8, 2500)),
+          rule="every case (some date is not labelled UTC, or labels are mixed)", quick=(4, 250), thorough=(8, 1500)),
 ]
